@@ -60,7 +60,7 @@ st, n = seed_table()
 for name, content in (("STATUS", status_table()), ("SEEDS", st), ("HARMLESS", harmless_table())):
     b, e = f"<!-- BEGIN {name} -->", f"<!-- END {name} -->"
     if b in s:
-        s = re.sub(re.escape(b) + ".*?" + re.escape(e), b + "\n" + content + "\n" + e, s, flags=re.S)
+        s = re.sub(re.escape(b) + ".*?" + re.escape(e), lambda _m, b=b, e=e, content=content: b + "\n" + content + "\n" + e, s, flags=re.S)
     else:
         print("marker missing:", name)
 open(os.path.join(ROOT, "DESIGN.md"), "w").write(s)
